@@ -93,3 +93,8 @@ package style
 //@   invariant forall k string :: has(clonedSM.styles, k) <==> seen(k)
 //@   invariant forall k string :: seen(k) ==> has(sm.styles, k)
 //@   invariant forall k string :: seen(k) ==> deepcopy(clonedSM.styles[k], sm.styles[k])
+
+// NewStyleManager returns a usable registry (needed by Open: C06).
+//@ func NewStyleManager
+//@ props C06
+//@ ensures result != nil && result.styles != nil && fresh(result)
